@@ -49,8 +49,10 @@ package specs
 //@ func encoding/binary.(bigEndian).Uint16
 //@ requires[room] len(b) >= 2
 //@ pure
+// lexicographical comparison: a total preorder on byte strings (antisymmetry of the sign)
 //@ func bytes.Compare
 //@ pure
+//@ ensures (result < 0) == (bytes.Compare(b, a) > 0) && (result == 0) == (bytes.Compare(b, a) == 0)
 
 // ---- sync: lock ghost state (re-entrancy of the current goroutine only) ---------------------
 //@ ghost wheld(m *sync.RWMutex) int
